@@ -29,9 +29,10 @@ CHECKS = {
                  'control calls, step(), execute() and late callbacks); requests are also placed after termination; the smallest '
                  'programs are explored with K=4 (thorough 5).', 'DESIGN.md 3 C01'),
     'C02': sched('the outcome-agreement oracle (future/result()/successful()/killed_msg()/exception() agree, one terminal '
-                 'listener notification, cleanups once, closed, step_until_terminated() returned; future pending while '
-                 'live, sampled after every choice); also on work chains awaiting futures / children and with K=4 on the '
-                 'smallest programs.', 'DESIGN.md 3 C02'),
+                 'listener notification - also next to a listener that unsubscribes itself inside a notification -, cleanups once, closed, '
+                 'step_until_terminated() returned; future pending while live, sampled after every choice); requests include '
+                 'withdrawing a pending pause / kill by cancelling the action it returned; also on work chains awaiting '
+                 'futures / children and with K=4 on the smallest programs.', 'DESIGN.md 3 C02'),
     'C03': ('fault-enumerator',
             'exhaustive fault-point enumeration (every hook / user function x occurrence x before|after super) over every '
             'single-request placement scenario on the real Process',
@@ -45,16 +46,19 @@ CHECKS = {
             'known findings (on_terminated / on_close raising after super) are listed in KNOWN_FINDINGS.txt.',
             'DESIGN.md 3 C03'),
     'C04': sched('the kill oracle (never raises, never lost, no step starts after it, result True iff KILLED, text '
-                 'recorded, future().cancel() equivalent, unkillability probe from every live end configuration); also on work '
+                 'recorded, future().cancel() equivalent also when the step in flight fails, a kill whose returned action is '
+                 'cancelled again is withdrawn and leaves the process killable, unkillability probe from every live end configuration); also on work '
                  'chains awaiting futures / children, with K=4 on the smallest programs, and on processes recreated from a '
                  'checkpoint at every waiting / paused point.',
                  'DESIGN.md 3 C04'),
     'C05': sched('the pause/play transparency oracle (no raise, nothing runs while paused, play un-pauses and withdraws a '
-                 'pending pause, trace/outputs/result equal to the uninterrupted run, status restored); also on work chains '
+                 'pending pause - as does cancelling the action pause() returned -, trace/outputs/result equal to the uninterrupted run, '
+                 'status restored); also on work chains '
                  'and with K=4 (thorough 6) on the smallest programs.',
                  'DESIGN.md 3 C05'),
     'C06': sched('the wake-up oracle (an accepted resume / completed awaitables always lead to the continuation running '
-                 'exactly once with the first accepted value, never WAITING at quiescence after play).',
+                 'exactly once with the first accepted value - also a value whose == answers yes to everything -, never WAITING at '
+                 'quiescence after play; a kill that is withdrawn again does not cost the wake-up).',
                  'DESIGN.md 3 C06'),
     'C09': ('input-enumerator',
             'bounded-exhaustive enumeration of outline ASTs x exhaustive exploration (prefix-replay DFS) of every '
@@ -75,7 +79,8 @@ CHECKS = {
             'Trusts the reference model and the small value domains listed in the evidence rule; steps are synchronous.',
             'DESIGN.md 3 C13'),
     'C10': sched('the barrier oracle on work chains that register n loop futures / launched children by return ToContext, '
-                 'to_context or both (outcome value / exception / killed child): at the entry of the next step every '
+                 'to_context or both (outcome value / exception / killed child - by kill() or by cancelling its future - / cancelled '
+                 'future; the same item under two keys): at the entry of the next step every '
                  'awaited item is done and in ctx, a failing or killed item ends the chain EXCEPTED with that error and '
                  'the next step never runs, a later assignment replaces the value. Completion events are placed at every '
                  'choice point in every order (J unbounded), plus <=1 pause/play.', 'DESIGN.md 3 C10'),
@@ -102,8 +107,9 @@ CHECKS = {
     'C14': ('history-bfs',
             'explicit-state breadth-first search over persister operation histories with canonical-state deduplication, '
             'both persisters in lock-step against a dictionary model',
-            'BFS over histories of save / advance-the-live-process / load / delete / delete-process / listings for two '
-            'live processes (a work chain mutating ctx objects in place and a waiting process), tags and integer, UUID '
+            'BFS over histories of save / a save that cannot succeed / advance-the-live-process / load / continue (recreate a '
+            'process from the stored snapshot and run it to its end) / delete / delete-process / listings for two '
+            'live processes (a work chain mutating ctx objects in place and a waiting process), tags (falsy ones included) and integer, UUID '
             'and string ids chosen to be string prefixes of each other; after every operation InMemoryPersister and '
             'PicklePersister (fresh /dev/shm directory per history) must agree with a dict model and with each other; '
             'loaded bundles are compared with the snapshot taken at save time although the process advanced since.',
@@ -112,20 +118,21 @@ CHECKS = {
     'C15': ('input-enumerator',
             'bounded-exhaustive enumeration of include/exclude rule sets over colliding-name port trees on the real '
             'expose_inputs/expose_outputs/absorb, against a path-set selection model',
-            'For three source trees whose names are string prefixes of each other, every include and exclude rule set '
-            '(<=2, thorough <=3 paths, no ancestor pairs) x target namespace x namespace option overrides x '
+            'For five source trees (names that are string prefixes of each other, names that recur further down, empty '
+            'namespaces, namespaces with a valid_type made non-dynamic again or with a default mapping) every include and '
+            'exclude rule set (the empty one, <=2, thorough <=3 paths, no ancestor pairs) x target namespace x namespace option overrides x '
             'expose_inputs/expose_outputs/absorb is executed; the destination tree and namespace properties are compared '
             'with a set-algebra model and both sides are mutated to check independence; include+exclude and unknown '
             'options must be rejected.',
-            'Trusts the selection model (written from the statement); empty rule lists and rules naming an ancestor of '
-            'another rule are outside the alphabet.', 'DESIGN.md 3 C15'),
+            'Trusts the selection model (written from the statement); rules naming an ancestor of another rule and the '
+            'options dynamic=False together with a valid_type are outside the alphabet.', 'DESIGN.md 3 C15'),
     'C07': ('input-enumerator',
             'exhaustive enumeration of snapshot points (every state entry, every pause placement, construction, end) x '
             'serialisation media x loaders over generated programs, save-load-save comparison on the real code',
             'Every generated Process program x input dictionary and a WorkChain with if/while/ctx is run on the '
             'deterministic loop under the default schedule and with one pause before every tick; at construction, every '
             'state entry, when paused and at the end a Bundle is taken and sent through deepcopy / pickle / yaml with the '
-            'default or a custom loader, loaded on a fresh loop, saved again and compared key by key; the loaded process '
+            'default or a custom loader (one that only resolves its own identifiers), loaded on a fresh loop, saved again and compared key by key; the loaded process '
             'must report the same pid, state, inputs, outputs, ctx, status, paused flag, creation time and outcome.',
             'Bundles are compared after mapping exceptions to (type, args) and dropping the traceback text; work chains '
             'waiting on in-memory futures cannot be saved and are excluded.', 'DESIGN.md 3 C07'),
@@ -163,7 +170,7 @@ CHECKS = {
     'C18': (SCHED, SCHED_TECH,
             'Scenarios of 1-3 concurrently stepping processes (plain, launching a child from a step, executing a child '
             're-entrantly inside a step through the nested run_until_complete) with async steps on environment gates, '
-            'scheduled callbacks and every lifecycle/pause/play/output hook overridden sample Process.current(); so do an '
+            'scheduled callbacks and every lifecycle/pause/play/output hook (init and on_create included) overridden sample Process.current(); so do an '
             'observer task that is no process and the harness between callbacks. Every order and placement of the gate '
             'completions and resumes (plus one pause+play) is explored; every sample must be the executing process, or '
             'None outside of any process.',
@@ -173,10 +180,12 @@ CHECKS = {
             'bounded-exhaustive enumeration of Savable class shapes x member kinds x future states x loader configurations '
             'on the real save/load code',
             'Inheritance chains of auto_persist declarations over plain, bound-method, nested-Savable and SavableFuture '
-            'members x future state x {default, global custom, per-save custom loader with/without load context} are '
+            'members x future state x {default, global custom, per-save custom loader with/without load context, per-save '
+            'loader that only resolves its own identifiers} are '
             'saved, the original mutated, and loaded again; restored members, absence of undeclared members, save-load-save '
             'identity, untouched parent classes, use of the recorded loader and ValueError for unknown identifiers are '
-            'checked.',
+            'checked; declarations made through the decorator, the classmethod and the persist() hook in every order of '
+            'first use, and classes that share a name, are covered as well.',
             'Member values are the small fixed ones of the generated classes.', 'DESIGN.md 3 C19'),
     'C20': (SCHED,
             'exhaustive enumeration of future chains x outcomes x completion orders, with every placement of the '
@@ -184,7 +193,7 @@ CHECKS = {
             'Chains of futures of depth <=3 (thorough 4) where each level ends with a value, an exception, a cancellation '
             'or the next level are pushed through unwrap_kiwi_future (every completion order and attachment point), '
             'plum_to_kiwi_future+unwrap and Process._schedule_rpc on the deterministic loop (every order and placement), '
-            'futures.create_task over coroutines awaiting 0-2 gates, and every CancellableAction operation sequence of '
+            'futures.create_task over coroutines awaiting 0-2 gates (ending with a value, an exception or a cancellation), and every CancellableAction operation sequence of '
             'length <=3; the adapter must end with exactly the innermost outcome, once, and the wrapped function is '
             'called at most once.',
             'A callback delivered by a communicator thread is modelled as a loop callback at an arbitrary queue position; '
